@@ -5,9 +5,12 @@ import json, os, glob, re
 V = '/verif'
 props = json.load(open(V + '/props.json'))
 titles = {json.loads(l)['id']: json.loads(l)['title'] for l in open(V + '/properties.jsonl')}
-print('<!-- generated by tools/gen_design_tables.py -->\n')
-print('| id | functions under contract | obligations (quick) | lemmas | frame scans | bounded stand-ins (never counted as proved) | fallback replays on real code | quick wall |')
-print('|---|---|---|---|---|---|---|---|')
+import io,sys
+_out=io.StringIO()
+_real=sys.stdout
+sys.stdout=_out
+print('| id | functions under contract | obligations (quick) | lemmas | frame scans | bounded stand-ins (always run; never counted as proved) | fallback replays (run when something fails) | fallback deciders for restructured code | quick wall |')
+print('|---|---|---|---|---|---|---|---|---|')
 for pid in sorted(props):
     p = props[pid]
     ev = {}
@@ -18,8 +21,8 @@ for pid in sorted(props):
     cov = ev.get('coverage', {})
     fns = [f.get('function') for f in cov.get('functions_under_contract', []) if f.get('function')]
     lem = [f.get('lemma') for f in cov.get('functions_under_contract', []) if f.get('lemma')]
-    print(f"| {pid} | {len(fns)} | {cov.get('discharged','?')}/{cov.get('obligations','?')} | {', '.join(p.get('lemmas', [])) or '-'} | {', '.join(p.get('frames', [])) or '-'} | {', '.join(b['name'] for b in p.get('bounded_runs', [])) or '-'} | {', '.join(r['name'] for r in p.get('replays', [])) or '-'} | {ev.get('wall_s', 0):.0f} s |")
-print('\n\n<!-- seeds -->\n')
+    print(f"| {pid} | {len(fns)} | {cov.get('discharged','?')}/{cov.get('obligations','?')} | {', '.join(p.get('lemmas', [])) or '-'} | {', '.join(p.get('frames', [])) or '-'} | {', '.join(b['name'] for b in p.get('bounded_runs', [])) or '-'} | {', '.join(r['name'] for r in p.get('replays', [])) or '-'} | {', '.join(r['name'] for r in p.get('fallbacks', [])) or '-'} | {ev.get('wall_s', 0):.0f} s |")
+asbuilt=_out.getvalue(); _out=io.StringIO(); sys.stdout=_out
 res = {}
 if os.path.exists(V + '/seeded/RESULTS.tsv'):
     for l in open(V + '/seeded/RESULTS.tsv'):
@@ -39,3 +42,17 @@ for d in sorted(glob.glob(V + '/seeded/C*')):
     o = re.sub(r'\(real code run: [^)]*\)', '', o)
     o = o.strip()[:170]
     print(f"| {sid} | {files} | {wb.replace('|','/')} | {r} | {o.replace('|','/')} |")
+
+seeds=_out.getvalue(); sys.stdout=_real
+if '--update' in sys.argv:
+    d=open(V+'/DESIGN.md').read()
+    def put(d,tag,txt):
+        a='<!-- BEGIN:%s -->'%tag; b='<!-- END:%s -->'%tag
+        i=d.index(a)+len(a); j=d.index(b)
+        return d[:i]+'\n'+txt+d[j:]
+    d=put(d,'asbuilt-table',asbuilt)
+    d=put(d,'seed-table',seeds)
+    open(V+'/DESIGN.md','w').write(d)
+    print('DESIGN.md tables updated')
+else:
+    print(asbuilt); print(seeds)
